@@ -84,6 +84,10 @@ func (m *Mutex) Unlock() {
 	if !m.held {
 		panic("sync: unlock of unlocked mutex")
 	}
+	if s.cfg.Sleep && !(m.global && s.cfg.Elide) {
+		t.pend = pending{kind: opUnlock, obj: m}
+		s.point(t)
+	}
 	m.held = false
 	if m.global {
 		t.heldGlob--
@@ -132,6 +136,10 @@ func (m *RWMutex) Unlock() {
 	if !m.writer {
 		panic("sync: Unlock of unlocked RWMutex")
 	}
+	if s.cfg.Sleep {
+		t.pend = pending{kind: opUnlock, obj: m}
+		s.point(t)
+	}
 	m.writer = false
 	m.vc = t.vc
 	t.vc[t.id]++
@@ -166,6 +174,10 @@ func (m *RWMutex) RUnlock() {
 	if m.readers == 0 {
 		panic("sync: RUnlock of unlocked RWMutex")
 	}
+	if s.cfg.Sleep {
+		t.pend = pending{kind: opUnlock, obj: m}
+		s.point(t)
+	}
 	m.readers--
 	joinVC(&m.rvc, &t.vc)
 	t.vc[t.id]++
@@ -191,6 +203,10 @@ func (w *WaitGroup) Add(delta int) {
 		return
 	}
 	t := s.cur
+	if s.cfg.Sleep {
+		t.pend = pending{kind: opWgAdd, obj: w}
+		s.point(t)
+	}
 	w.n += int64(delta)
 	if w.n < 0 {
 		panic("sync: negative WaitGroup counter")
